@@ -249,7 +249,7 @@ func init() {
 		ID: "C20",
 		Rule: "family node: the skeleton document with each JSON node (all ~1100) replaced by each of 46 replacement values (scalars, containers, 34 adversarial $ref forms incl. every wrong-kind component, pointers drilling through structs/maps/slices/scalars, missing/garbage/self files) or deleted; " +
 			"family prefix: every byte prefix of the compact skeleton; family flip: every structural byte ({}[]:,\") replaced by each other structural byte (thorough) / every 7th (quick); family yaml: the node replacements rendered as YAML (thorough: all, quick: $ref adversaries only) and 25 YAML-only token documents; " +
-			"family graft: at every object of the skeleton (all kinds incl. operations, media types, encodings) a reference to the object itself or to each of its referenceable ancestors is grafted into each reference slot of the object's kind (self-containing callbacks, schemas composed of themselves, headers pointing to the response they are in); family chain: acyclic chains of 8/24/48 component schemas, every level referring to the next once or twice through each edge type (shared sub-schemas must not be revisited per path); family forest: every C02 forest (all shapes incl. cycles and bad references). x entry point {LoadFromData, LoadFromDataWithPath} x external refs allowed/disallowed. After a successful load: Validate (two option sets), json.Marshal, yaml.Marshal, InternalizeRefs, json.Marshal. non-trivial = the mutated bytes still parse as JSON/YAML (the loader proper is reached)",
+			"family graft: at every object of the skeleton (all kinds incl. operations, media types, encodings) a reference to the object itself or to each of its referenceable ancestors is grafted into each reference slot of the object's kind (self-containing callbacks, schemas composed of themselves, headers pointing to the response they are in); family chain: acyclic chains of 8/24/48 component schemas, every level referring to the next once or twice through each edge type (shared sub-schemas must not be revisited per path), and rings of 4 and 5 schemas with a default; family forest: every C02 forest (all shapes incl. cycles and bad references). x entry point {LoadFromData, LoadFromDataWithPath} x external refs allowed/disallowed. After a successful load: Validate (two option sets), json.Marshal, yaml.Marshal, InternalizeRefs, json.Marshal. non-trivial = the mutated bytes still parse as JSON/YAML (the loader proper is reached)",
 		Assumptions: []string{
 			"termination is decided by the instrumented step budget (1e6 steps, 15x the largest terminating execution observed) and, for dependencies, by the 120 s per-execution watchdog",
 			"a worker that dies (stack overflow, fatal error) is attributed to the choice vector it was executing",
@@ -288,7 +288,7 @@ func init() {
 				forest = GenForest(x, thorough)
 			case "chain":
 				pi = x.Choose(len(c20ChainEdges))
-				ri = x.Choose(3) // depth 8, 24, 48
+				ri = x.Choose(5) // depth 8, 24, 48; 3 and 4 closed into a ring (the last schema refers back to the first)
 				n = x.Choose(2)  // fan-out 1, 2
 			case "graft":
 				pi = x.Choose(len(graftPos))
@@ -367,13 +367,20 @@ func init() {
 			case "chain":
 				// an acyclic chain of component schemas, every level referring to the next one once or twice through one
 				// edge type: shared sub-schemas must be visited once, not once per path (2^48 paths)
-				depth := []int{8, 24, 48}[ri]
+				depth := []int{8, 24, 48, 3, 4}[ri]
+				ring := ri >= 3
 				edge := c20ChainEdges[pi]
 				schemas := map[string]any{}
 				for i := 0; i <= depth; i++ {
 					name := fmt.Sprintf("S%02d", i)
 					if i == depth {
 						schemas[name] = map[string]any{"type": "string"}
+						if ring {
+							// a ring of schemas referring to one another, with a default to be checked against it
+							back := edge.build(map[string]any{"$ref": "#/components/schemas/S00"}, 1)
+							back["default"] = "d"
+							schemas[name] = back
+						}
 						continue
 					}
 					next := map[string]any{"$ref": fmt.Sprintf("#/components/schemas/S%02d", i+1)}
@@ -381,6 +388,9 @@ func init() {
 				}
 				doc := map[string]any{"openapi": "3.0.3", "info": map[string]any{"title": "t", "version": "1"}, "paths": map[string]any{}, "components": map[string]any{"schemas": schemas}}
 				c.desc = fmt.Sprintf("chain of %d schemas through %s, fan-out %d", depth, edge.name, n+1)
+				if ring {
+					c.desc = fmt.Sprintf("ring of %d schemas through %s, fan-out %d, with a default", depth+1, edge.name, n+1)
+				}
 				c.data, _ = json.Marshal(doc)
 			case "graft":
 				// a reference to the object itself or to one of its ancestors, grafted into one of the object's reference slots
